@@ -165,8 +165,8 @@ def check(run):
         if " F=lkcd " in line:
             index_tie(run, exe_idx, [line], [{"key": "replay", "image": img, "pfns": []}], show=True)
         return
-    plan = [("dd", 120 if quick else 2000), ("elf", 100 if quick else 2000),
-            ("sadump", 80 if quick else 1200), ("lkcd", 100 if quick else 2000),
+    plan = [("dd", 110 if quick else 2000), ("elf", 90 if quick else 2000),
+            ("sadump", 70 if quick else 1200), ("lkcd", 90 if quick else 2000),
             ("s390", 40 if quick else 400)]
     only = os.environ.get("VERIF_C01_FORMATS")
     if only:
